@@ -22,6 +22,7 @@ func init() {
 }
 
 func runC22(c *eng.Ctx) {
+	defer runC22Ref(c)
 	p := c.P
 	wr := p.MethodOn("tsdb:Head.lastSeriesID", "Store", "Inc", "Add", "Dec", "Sub", "Swap", "CompareAndSwap")
 	// ---- R1 one monotonic source of series ids ----
